@@ -48,7 +48,7 @@ func init() {
 			"Not decided: the window statement for all histories (loop arithmetic over runtime data), absence of network access, that NaCl/Ed25519 reject every altered bit, equality of payload bytes for all sizes.",
 		Trusted:     []string{"nacl/secretbox, Ed25519 (libp2p crypto), HKDF/SHA3", "go/packages+go/ssa (x/tools v0.29.0)", "go-datastore Get/Put/Delete semantics", "effects identified by the namespace constants of pkg/secretstore"},
 		Assumptions: []string{"the 'newly decrypted' flag is only stored where C01.D2 says (checked there for the whole module, here again for the push scope)", "interface calls on SecretStore resolve to the module implementation"},
-		Floors:      map[string]int{"D1": 8, "D2": 5, "D3": 7, "D4": 14, "D5": 16, "D6": 17, "D7": 5, "D8": 2, "D9": 1, "D10": 10, "D11": 2},
+		Floors:      map[string]int{"D1": 8, "D2": 5, "D3": 7, "D4": 14, "D5": 16, "D6": 15, "D7": 5, "D8": 2, "D9": 1, "D10": 10, "D11": 2},
 		Run:         runC14,
 	})
 }
@@ -235,7 +235,17 @@ func c14RolesOn(w *World, fn *ssa.Function, v ssa.Value, inline bool, frames []c
 			}
 			for _, p := range f.FreeVars {
 				if p.Name() == base && !found {
-					seen[c14TypeName(p.Type())+rest] = true
+					// a captured variable is a cell: its type is a pointer to the variable's type. The
+					// content of the cell is followed to the enclosing function's values by the
+					// provenance walk; the variable itself is a source only when it holds a protocol
+					// message (roles are written on those) or when a field of it is read.
+					vt := p.Type()
+					if pt, isPtr := vt.Underlying().(*types.Pointer); isPtr {
+						vt = pt.Elem()
+					}
+					if rest != "" || c14IsAnchorType(vt) {
+						seen[c14TypeName(vt)+rest] = true
+					}
 					out.add(k)
 					found = true
 				}
@@ -367,24 +377,106 @@ func (cs *c14Sites) of(fn *ssa.Function) map[ssa.CallInstruction]effectSite {
 // c14LookupRole: a must-pass role whose primitive is a pure lookup site (direct Get, or a call
 // to a function that only reads) carrying one of the given effects; the error is the verdict.
 func c14LookupRole(cs *c14Sites, name string, preds ...EffPred) checkRole {
-	return checkRole{Name: name, Match: func(fn *ssa.Function, ci ssa.CallInstruction) []ssa.Value {
-		s, ok := cs.of(fn)[ci]
-		if !ok || !s.pureLookup() {
-			return nil
+	matches := func(s effectSite) bool {
+		if !s.pureLookup() {
+			return false
 		}
-		hit := false
 		for _, p := range preds {
 			if s.has(p) {
-				hit = true
+				return true
 			}
 		}
-		if !hit {
+		return false
+	}
+	return checkRole{Name: name, Match: func(fn *ssa.Function, ci ssa.CallInstruction) []ssa.Value {
+		if s, ok := cs.of(fn)[ci]; ok && matches(s) {
+			if v := errVerdict(ci); v != nil {
+				return []ssa.Value{v}
+			}
 			return nil
 		}
-		if v := errVerdict(ci); v != nil {
-			return []ssa.Value{v}
+		// the lookup runs in a closure of fn that a module helper calls (withRLock(func(){ v, err = get() })):
+		// its error reaches fn through the captured variable; the verdicts are fn's reads of that
+		// variable after the helper call
+		call, isCall := ci.(*ssa.Call)
+		if !isCall {
+			return nil
 		}
-		return nil
+		var out []ssa.Value
+		for _, cc := range c14ClosureCalls(fn) {
+			if cc.call != call {
+				continue
+			}
+			for inner, s := range cs.of(cc.closure) {
+				if !matches(s) {
+					continue
+				}
+				ev := errVerdict(inner)
+				if ev == nil || ev.Referrers() == nil {
+					continue
+				}
+				for _, r := range *ev.Referrers() {
+					st, ok := r.(*ssa.Store)
+					if !ok || st.Val != ev {
+						continue
+					}
+					cell := c14CellAddr(st.Addr, 0)
+					if cell == nil {
+						continue
+					}
+					// stores made by closures must be this verdict only; stores made by fn itself may not lie
+					// between the helper call and the read that is taken as the verdict
+					stores, ok := c14CellStores(cell)
+					if !ok {
+						continue
+					}
+					var own []*ssa.Store
+					for _, b := range fn.Blocks {
+						for _, in := range b.Instrs {
+							if st2, isSt := in.(*ssa.Store); isSt && st2.Addr == ssa.Value(cell) {
+								own = append(own, st2)
+							}
+						}
+					}
+					clean := true
+					for _, sv := range stores {
+						if sv == ev || isNilConst(sv) {
+							continue
+						}
+						mine := false
+						for _, o := range own {
+							if o.Val == sv {
+								mine = true
+							}
+						}
+						if !mine {
+							clean = false
+						}
+					}
+					if !clean {
+						continue
+					}
+					for _, b := range fn.Blocks {
+						for _, in := range b.Instrs {
+							ld, ok := in.(*ssa.UnOp)
+							if !ok || ld.Op != token.MUL || ld.X != ssa.Value(cell) || !instrReaches(call, in) {
+								continue
+							}
+							overwritten := false
+							for _, o := range own {
+								if instrReaches(call, o) && instrReaches(o, in) {
+									overwritten = true
+								}
+							}
+							if !overwritten {
+								out = append(out, ld)
+							}
+						}
+					}
+				}
+			}
+		}
+		return out
 	}}
 }
 
@@ -731,7 +823,7 @@ func runC14(c *Ctx) {
 	}
 	c14AddChains(w, openO, func(f *ssa.Function) bool { return isPushOnly[f] })
 
-	c14D1(c, ei, openO)
+	c14D1(c, ei, openO, pushScope)
 	c14D2(c, openO)
 	c14D3(c, ei, cs, openO, pushScope)
 	c14D4(c, cs, openO, pushScope)
@@ -746,7 +838,20 @@ func runC14(c *Ctx) {
 
 // ---- D1 consumes nothing ---------------------------------------------------
 
-func c14D1(c *Ctx, ei *effectInfo, openO *ssa.Function) {
+func c14D1(c *Ctx, ei *effectInfo, openO *ssa.Function, pushScope []*ssa.Function) {
+	// effects are attributed through static and interface calls; a closure handed to a helper
+	// (withLock(func(){...})) is not a call edge, so the direct sites of every function and closure of
+	// the push scope are looked at as well
+	direct := func(pred EffPred) (string, token.Pos) {
+		for _, fn := range pushScope {
+			for _, s := range ei.sitesWith(fn, pred) {
+				if s.Direct {
+					return fmt.Sprintf("%s (%s)", fnName(fn), c.pos(posOf(s.Instr))), posOf(s.Instr)
+				}
+			}
+		}
+		return "", token.NoPos
+	}
 	name := fnName(openO)
 	forbidden := []struct {
 		label string
@@ -760,6 +865,9 @@ func c14D1(c *Ctx, ei *effectInfo, openO *ssa.Function) {
 	}
 	for _, f := range forbidden {
 		path, pos := c14EffectPath(c, ei, openO, f.pred, map[*ssa.Function]bool{})
+		if path == "" {
+			path, pos = direct(f.pred)
+		}
 		if path == "" {
 			c.ok("D1", name+"+no:"+f.label, openO.Pos(), "the push open path never performs %s", f.label)
 		} else {
@@ -788,10 +896,26 @@ func c14D1(c *Ctx, ei *effectInfo, openO *ssa.Function) {
 		return nsOK
 	}
 	var effs []Effect
-	for e := range ei.summaryOf(openO) {
+	seenEff := map[Effect]bool{}
+	addEff := func(e Effect) {
 		switch e.Op {
 		case "Put", "Delete", "Commit", "KsPut", "KsDelete":
-			effs = append(effs, e)
+			if !seenEff[e] {
+				seenEff[e] = true
+				effs = append(effs, e)
+			}
+		}
+	}
+	for e := range ei.summaryOf(openO) {
+		addEff(e)
+	}
+	for _, fn := range pushScope {
+		for _, s := range ei.sitesIn(fn) {
+			if s.Direct {
+				for _, e := range s.Effects {
+					addEff(e)
+				}
+			}
 		}
 	}
 	sort.Slice(effs, func(i, j int) bool { return effs[i].String() < effs[j].String() })
@@ -807,6 +931,9 @@ func c14D1(c *Ctx, ei *effectInfo, openO *ssa.Function) {
 		}
 		e := e
 		path, pos := c14EffectPath(c, ei, openO, func(x Effect) bool { return x == e }, map[*ssa.Function]bool{})
+		if path == "" {
+			path, pos = direct(func(x Effect) bool { return x == e })
+		}
 		labelled := false
 		for _, p := range strings.Split(e.NS, "|") {
 			switch p {
@@ -1900,10 +2027,29 @@ func c14D6(c *Ctx, ei *effectInfo, cs *c14Sites, openO, sealO, openP *ssa.Functi
 						isDev = false
 					}
 				}
+				if o := c14Origin(a, 0); strings.HasPrefix(o, "key(") && strings.HasSuffix(o, ".DevicePk)") {
+					isDev = true // decoded from a message's DevicePk, seen through variable cells and captures
+				}
 				if isDev {
 					out = append(out, fmt.Sprintf("#%d=device-key", i))
 				} else {
 					out = append(out, fmt.Sprintf("#%d=other-key", i))
+				}
+			case c14TypeName(pt) == "[]byte":
+				roles, _ := c14Roles(w, fn, a, true)
+				isSig := len(roles) > 0
+				for _, r := range roles {
+					if !strings.HasSuffix(r, ".Sig") {
+						isSig = false
+					}
+				}
+				if o := c14Origin(a, 0); strings.HasSuffix(o, ".Sig") && !strings.HasPrefix(o, "key(") {
+					isSig = true
+				}
+				if isSig {
+					out = append(out, fmt.Sprintf("#%d=message-signature", i))
+				} else {
+					out = append(out, fmt.Sprintf("#%d=other-bytes", i))
 				}
 			case c14TypeName(pt) == "uint64":
 				roles, _ := c14Roles(w, fn, a, true)
@@ -1915,6 +2061,9 @@ func c14D6(c *Ctx, ei *effectInfo, cs *c14Sites, openO, sealO, openP *ssa.Functi
 				}
 				if pv, _, _ := c14Up(w, fn, a); !c14IsPlainField(pv) {
 					isCtr = false
+				}
+				if o := c14Origin(a, 0); strings.HasSuffix(o, ".Counter") && !strings.HasPrefix(o, "key(") {
+					isCtr = true
 				}
 				if isCtr {
 					out = append(out, fmt.Sprintf("#%d=message-counter", i))
@@ -2221,6 +2370,21 @@ func c14D9(c *Ctx, ei *effectInfo, updR *ssa.Function) {
 				}
 				written = append(written, vals...)
 			}
+			// writes made by a closure of this function that a module helper runs (withLock(func(){...}))
+			for _, cc := range c14ClosureCalls(fn) {
+				if !instrReaches(cc.call, u.(ssa.Instruction)) {
+					continue
+				}
+				for _, s := range ei.sitesWith(cc.closure, putChain) {
+					nSites++
+					vals, why := c14StoredAtSite(ei, cc.closure, s, 0)
+					if why != "" {
+						modelled, whyNot = false, why
+						continue
+					}
+					written = append(written, vals...)
+				}
+			}
 			switch {
 			case nSites == 0 && isStoredChainKey(w, base):
 				c.ok("D9", construct, posOf(u), "the window is centred on the counter of the chain key read from the store")
@@ -2387,6 +2551,10 @@ func c14CellValues(v ssa.Value, depth int) []ssa.Value {
 func c14SameValue(a, b ssa.Value) bool {
 	if c14SameObject(stripConv(a), stripConv(b)) {
 		return true
+	}
+	if ca, cb := c14CellOf(a), c14CellOf(b); ca != nil && cb != nil {
+		// two reads of one variable (possibly one of them through a closure's capture)
+		return ca == cb
 	}
 	as, bs := c14CellValues(a, 0), c14CellValues(b, 0)
 	if len(as) == 0 || len(as) != len(bs) {
@@ -2810,4 +2978,236 @@ func c14OptName(w *World, fn *ssa.Function) string {
 		}
 	}
 	return fnName(fn)
+}
+
+// ---- captured variables -------------------------------------------------------------------
+
+// c14Binding: the value bound to free variable fv where its closure is created.
+func c14Binding(fv *ssa.FreeVar) ssa.Value {
+	fn := fv.Parent()
+	idx := -1
+	for i, f := range fn.FreeVars {
+		if f == fv {
+			idx = i
+		}
+	}
+	par := fn.Parent()
+	if idx < 0 || par == nil {
+		return nil
+	}
+	for _, b := range par.Blocks {
+		for _, in := range b.Instrs {
+			if mc, ok := in.(*ssa.MakeClosure); ok && mc.Fn == ssa.Value(fn) && idx < len(mc.Bindings) {
+				return mc.Bindings[idx]
+			}
+		}
+	}
+	return nil
+}
+
+// c14CellOf: the variable cell (Alloc) that v loads, directly or through a captured variable
+// of a closure (followed to the enclosing function, repeatedly).
+func c14CellOf(v ssa.Value) *ssa.Alloc {
+	ld, ok := stripConv(v).(*ssa.UnOp)
+	if !ok || ld.Op != token.MUL {
+		return nil
+	}
+	return c14CellAddr(ld.X, 0)
+}
+
+func c14CellAddr(addr ssa.Value, depth int) *ssa.Alloc {
+	if depth > 4 {
+		return nil
+	}
+	switch a := addr.(type) {
+	case *ssa.Alloc:
+		return a
+	case *ssa.FreeVar:
+		if b := c14Binding(a); b != nil {
+			return c14CellAddr(b, depth+1)
+		}
+	}
+	return nil
+}
+
+// c14CellStores: every value stored into the variable cell al, in its function and in the
+// closures that capture it (transitively); ok is false when the cell's address is used in a
+// way that is not a plain load/store/capture.
+func c14CellStores(al *ssa.Alloc) (vals []ssa.Value, ok bool) {
+	ok = true
+	var walk func(addr ssa.Value, depth int)
+	walk = func(addr ssa.Value, depth int) {
+		refs := addr.Referrers()
+		if refs == nil || depth > 4 {
+			return
+		}
+		for _, r := range *refs {
+			switch u := r.(type) {
+			case *ssa.Store:
+				if u.Addr == addr {
+					vals = append(vals, u.Val)
+				} else {
+					ok = false
+				}
+			case *ssa.UnOp, *ssa.DebugRef:
+			case *ssa.MakeClosure:
+				f, isF := u.Fn.(*ssa.Function)
+				if !isF {
+					ok = false
+					continue
+				}
+				for i, b := range u.Bindings {
+					if b == addr && i < len(f.FreeVars) {
+						walk(f.FreeVars[i], depth+1)
+					}
+				}
+			default:
+				ok = false
+			}
+		}
+	}
+	walk(al, 0)
+	return vals, ok
+}
+
+// c14Origin describes where v comes from when that is a single field of a protocol message,
+// looking through variable cells (also captured ones), conversions, generated getters and the
+// Ed25519 key decoder: "MessageHeaders.Counter", "key(OutOfStoreMessage.DevicePk)". Empty when
+// v is anything else.
+func c14Origin(v ssa.Value, depth int) string {
+	if depth > 8 || v == nil {
+		return ""
+	}
+	v = stripConv(v)
+	switch x := v.(type) {
+	case *ssa.Extract:
+		if call, ok := x.Tuple.(*ssa.Call); ok && x.Index == 0 && calleeKey(call.Common()) == keyUnmEd && len(call.Common().Args) == 1 {
+			if o := c14Origin(call.Common().Args[0], depth+1); o != "" {
+				return "key(" + o + ")"
+			}
+		}
+		return ""
+	case *ssa.Phi:
+		out := ""
+		for _, e := range x.Edges {
+			if isNilConst(e) {
+				continue
+			}
+			o := c14Origin(e, depth+1)
+			if o == "" || (out != "" && o != out) {
+				return ""
+			}
+			out = o
+		}
+		return out
+	}
+	if cell := c14CellOf(v); cell != nil {
+		stores, ok := c14CellStores(cell)
+		if !ok {
+			return ""
+		}
+		out := ""
+		for _, sv := range stores {
+			if isNilConst(sv) {
+				continue
+			}
+			if c2 := c14CellOf(sv); c2 == cell {
+				continue
+			}
+			o := c14Origin(sv, depth+1)
+			if o == "" || (out != "" && o != out) {
+				return ""
+			}
+			out = o
+		}
+		return out
+	}
+	if base, field := c14FieldOf(v); base != nil {
+		if t := c14MessageOf(base, depth+1); t != "" {
+			return t + "." + field
+		}
+	}
+	return ""
+}
+
+// c14MessageOf: base denotes a protocol message held in a parameter (possibly spilled to a
+// variable cell or captured): its type name.
+func c14MessageOf(base ssa.Value, depth int) string {
+	if depth > 8 {
+		return ""
+	}
+	base = stripConv(base)
+	if p, ok := base.(*ssa.Parameter); ok {
+		if n := typeNamed(p.Type()); n != nil && n.Obj().Pkg() != nil && n.Obj().Pkg().Path() == pkgTypes {
+			return n.Obj().Name()
+		}
+		return ""
+	}
+	if cell := c14CellOf(base); cell != nil {
+		stores, ok := c14CellStores(cell)
+		if !ok {
+			return ""
+		}
+		out := ""
+		for _, sv := range stores {
+			t := c14MessageOf(sv, depth+1)
+			if t == "" || (out != "" && t != out) {
+				return ""
+			}
+			out = t
+		}
+		return out
+	}
+	return ""
+}
+
+type c14ClosureCall struct {
+	call    *ssa.Call
+	closure *ssa.Function
+}
+
+// c14ClosureCalls: the calls in fn that hand one of fn's own closures to a module function
+// which calls that parameter (a "run this under the lock" helper): the closure's body then
+// runs at the call.
+func c14ClosureCalls(fn *ssa.Function) []c14ClosureCall {
+	var out []c14ClosureCall
+	for _, b := range fn.Blocks {
+		for _, in := range b.Instrs {
+			call, ok := in.(*ssa.Call)
+			if !ok {
+				continue
+			}
+			h := staticCallee(call.Common())
+			if h == nil || h.Blocks == nil || !inModule(h) {
+				continue
+			}
+			for i, a := range call.Common().Args {
+				mc, ok := a.(*ssa.MakeClosure)
+				if !ok {
+					if ct, isCT := a.(*ssa.ChangeType); isCT {
+						mc, ok = ct.X.(*ssa.MakeClosure)
+					}
+				}
+				if !ok || i >= len(h.Params) {
+					continue
+				}
+				g, isF := mc.Fn.(*ssa.Function)
+				if !isF || g.Parent() != fn {
+					continue
+				}
+				called := false
+				for _, hb := range h.Blocks {
+					for _, hin := range hb.Instrs {
+						if hc, isCall := hin.(ssa.CallInstruction); isCall && !hc.Common().IsInvoke() && hc.Common().Value == ssa.Value(h.Params[i]) {
+							called = true
+						}
+					}
+				}
+				if called {
+					out = append(out, c14ClosureCall{call, g})
+				}
+			}
+		}
+	}
+	return out
 }
